@@ -143,6 +143,24 @@ Theorem C05_timeslice_floor : forall e span name r r' ns,
 Proof. exact timeslice_floor. Qed.
 Print Assumptions C05_timeslice_floor.
 
+(** ... and it IS yielded for every date and every slice length whose floor is a date (fix fa5338c: chrono's truncation
+    refused every date outside 1677..2262 and every slice longer than 292 years) *)
+Theorem C05_timeslice_defined : forall e span name r ns,
+  eval e (rdata r) = Ok (VDate ns) -> 0 < span -> date_ok (ns - ns mod span) = true ->
+  exists r', timeslice_op e span name r = Ok (Some r').
+Proof.
+  intros e span name r ns He Hs Hd. unfold timeslice_op. rewrite He. cbn [bind].
+  destruct (span <=? 0) eqn:E; [apply Z.leb_le in E; lia|].
+  unfold mk_date. rewrite Hd. cbn [bind]. eexists. reflexivity.
+Qed.
+Print Assumptions C05_timeslice_defined.
+Example C05_timeslice_far_dates :
+  (* 2300-01-01T10:20:30Z and an hour; 2021-03-01T10:20:30Z and 20000 weeks *)
+  date_ok (10413829230000000000 - 10413829230000000000 mod 3600000000000) = true /\
+  10413829230000000000 - 10413829230000000000 mod 3600000000000 = 10413828000000000000 /\
+  1614594030000000000 - 1614594030000000000 mod (20000 * 604800000000000) = 0.
+Proof. vm_compute. repeat split. Qed.
+
 (** a row on which the expression fails is dropped on its own (with C12: no other row is affected) *)
 Theorem C05_failing_row_dropped : forall e n r,
   (eval_bool e (rdata r) = Err -> where_op e r = Err) /\
